@@ -336,6 +336,7 @@ def _run(w, plan):
         inc.sessions = []
         inc.proc_n = 0
         inc.pending = None
+        inc.in_proc = None
         inc.alive = True
         inc.commit_ws = []
         inc.shutdown_ws = []
@@ -406,7 +407,13 @@ def _run(w, plan):
                 for i_, ss in enumerate(inc.sessions):
                     if ss["start_kind"] != "committed":
                         first = i_
-                rec["bad_below"] = sorted(set(o for ss in inc.sessions[first:] for p in ss["procs"] if p["seq"] < horizon
+                # ... and so is the reset policy firing (the broker answered out-of-range: what lay before is gone)
+                oor_seq = -1
+                for e in reversed(cl.served_fetches):
+                    if e["pid"] == inc.pid and e["served"][0]["error"] == E_OFFSET_OUT_OF_RANGE:
+                        oor_seq = e["logseq"]
+                        break
+                rec["bad_below"] = sorted(set(o for ss in inc.sessions[first:] for p in ss["procs"] if oor_seq < p["seq"] < horizon
                                               for o in p["offsets"] if o <= pl[0].offset and o not in okset))
             if s["stopped"]:
                 res.violate("C13", "C13:client-request-after-stop:%s" % rec["name"], "consumer issued %s after stop() returned" % rec["name"], sim)
@@ -432,6 +439,13 @@ def _run(w, plan):
         if s["stopped"]:
             res.violate("C13", "C13:processor-invoked-after-stop", "invocation %d (offsets %d..%d) after stop() returned" % (k, msgs[0].offset, msgs[-1].offset), sim)
         s["procs"].append(rec)
+        inc.in_proc = rec
+        try:
+            return _processor_body(inc, s, rec, k, msgs)
+        finally:
+            inc.in_proc = None
+
+    def _processor_body(inc, s, rec, k, msgs):
         for m in msgs:
             s["delivered"].append((m.offset, m.message.key, m.message.value, rec))
         spec = proc_spec.get(k, {"mode": "sync"})
@@ -575,6 +589,7 @@ def _run(w, plan):
                 if s["shutdown_called"]:
                     return
                 s["shutdown_called"] = True
+                s["shutdown_from_processor"] = inc.in_proc is not None
                 s["shutdown_seq"] = len(sim.log)
                 s["pending_at_shutdown"] = inc.pending
                 d = c.shutdown()
@@ -623,8 +638,8 @@ def _run(w, plan):
             res.violate("C13", "C13:shutdown-fired-while-processing", "shutdown Deferred fired while invocation %d was pending" % inc.pending["k"], sim)
         if wd.ok and cc["group"]:
             if c.last_committed_offset != c.last_processed_offset and c.last_processed_offset is not None:
-                res.violate("C13", "C13:shutdown-success-without-commit", "shutdown succeeded with last_committed=%r last_processed=%r" % (
-                    c.last_committed_offset, c.last_processed_offset), sim)
+                res.violate("C13", "C13:shutdown-success-without-commit:%s" % ("called-from-inside-processor" if s.get("shutdown_from_processor") else "called-from-outside"),
+                            "shutdown succeeded with last_committed=%r last_processed=%r" % (c.last_committed_offset, c.last_processed_offset), sim)
             else:
                 res.probe("shutdown_committed_everything")
 
@@ -867,7 +882,11 @@ def _oracles(w, plan, res, incs, part, state, corrupted, live_tail):
                     first_delivered = s["delivered"][0][0]
         if final is not None and first_delivered is not None and any(c_["stored"] for c_ in cl.commits):
             res.oblige("C03")
-            missing = [x for x in offsets_sorted if first_delivered <= x <= final[0] and x not in okset and x >= part.log_start]
+            lo = first_delivered
+            if cfg.get("precommit") is not None:
+                # offsets at or below a commit that existed before this consumer ever ran are some earlier owner's progress
+                lo = max(lo, cfg["base"] + cfg["precommit"] + 1)
+            missing = [x for x in offsets_sorted if lo <= x <= final[0] and x not in okset and x >= part.log_start]
             restarts = any(s["start_kind"] != "committed" for inc in incs for s in inc.sessions[1:]) or \
                 any(s["start_kind"] == "latest" for inc in incs for s in inc.sessions)
             oor = bool(oor_events)
